@@ -632,6 +632,20 @@ def _source_tokens(lm, F, du, operand):
             toks.add('iter@bb%d' % bid)
         elif n in ('std::mem::take', 'std::mem::replace'):
             toks.add('take@bb%d' % bid)
+    # the operand is the guard itself, by reference (`helper(&frozen_buffer, ..)` with a parameter of
+    # type `&MutexGuard<Buffer>`): the token is the lock the guard holds
+    holder = base_local(operand)
+    for _i in range(10):
+        d = du.single_def(holder) if holder is not None else None
+        if d and d[1] == 'stmt' and re.match(r'^(&(mut )?|copy |move )\(?\*?_\d+\)?$', d[2].rhs.strip()):
+            holder = base_local(d[2].rhs)
+        else:
+            break
+    if holder is not None and 'Guard<' in (F.local_type(holder) or ''):
+        for bid in F.blocks:
+            for fact in lm.may_at(F, bid, None):
+                if fact[1] == holder:
+                    toks.add('guard:' + fact[0])
     return toks
 
 
